@@ -271,6 +271,11 @@ func pkgFuncs(p *Program, rel string) []*ssa.Function {
 }
 
 func checkC04(p *Program, r *Report) {
+	sharedStateRule(p, r, NewEffects(p), "C04.shared", []string{"hdkeychain/extendedkey.go", "hash160.go"})
+	r.Floor("C04.shared", 10)
+	sharedKeyBytesRule(p, r, "C04.shared")
+	memoCoherence(p, r, "C04.memo", "hdkeychain", "ExtendedKey", nil)
+	r.Floor("C04.memo", 0)
 	r.Explain = "C04.pad: every (*big.Int).Bytes() result in hdkeychain (the child scalar after Mod) reaches key material / serialisation only through a pad to " +
 		"32 bytes (pad helper recognised structurally, FillBytes, or the inline len < 32 idiom) — the leading-zero bug class cannot occur. C04.guards: in Child " +
 		"the depth increment cannot wrap (depth ≤ 254 proved), hardened derivation from a public key rejects (constant 2^31), and both range tests on I_L " +
